@@ -345,9 +345,17 @@ func captureFile(format, link string, frames [][]byte, decoy int, split int) []b
 			if decoy == 2 {
 				wb(uint32(1), uint32(20), other, uint16(0), uint32(262144), uint32(20))
 			}
+			if decoy == 3 {
+				// a second interface of the SAME link type: the packets of every connection and the fragments of every datagram
+				// are spread over the two (a tap with one interface per direction, a merged capture): one conversation all the same
+				wb(uint32(1), uint32(20), uint16(lt), uint16(0), uint32(262144), uint32(20))
+			}
 			for i, f := range fr {
 				pad := (4 - len(f)%4) % 4
 				tl := uint32(32 + len(f) + pad)
+				if decoy == 3 {
+					ifid = uint32((first + i + (first+i)/3) % 2)
+				}
 				wb(uint32(6), tl, ifid, uint32(0x0005f000), uint32((first+i)*1000), uint32(len(f)), uint32(len(f)))
 				body.Write(f)
 				body.Write(make([]byte, pad))
@@ -677,7 +685,7 @@ func observe(h *History, format, link string, wseed int64, big bool) (Obs, []int
 		bo = binary.BigEndian
 	}
 	frames := w.frames(h, rng, link, bo)
-	file := captureFile(format, link, frames, rng.Intn(3), h.Split)
+	file := captureFile(format, link, frames, rng.Intn(4), h.Split)
 	conns, reasm, errs := runFq(format, file)
 	obs := Obs{Conns: []ObsConn{}, Reasm: []int{}}
 	for _, rc := range conns {
